@@ -15,9 +15,11 @@ import (
 
 	"github.com/named-data/ndnd/fw/defn"
 	"github.com/named-data/ndnd/fw/face"
+	fwfw "github.com/named-data/ndnd/fw/fw"
 	enc "github.com/named-data/ndnd/std/encoding"
 	stdface "github.com/named-data/ndnd/std/engine/face"
 
+	"verif/internal/fwenv"
 	"verif/internal/gen"
 	"verif/internal/h"
 	"verif/internal/tlvwalk"
@@ -107,6 +109,12 @@ func c11Run(c *h.Ctx) {
 			continue
 		}
 		c11Transport(c, id, c.Rng(id), c.Pick(200_000, 1_500_000))
+	}
+	for k := 0; k < c.Pick(6, 40); k++ {
+		id := fmt.Sprintf("lpfrag%d", k)
+		if c.Case(id) {
+			c11LinkFragments(c, id, c.Rng(id))
+		}
 	}
 	for k := 0; k < c.Pick(6, 40); k++ {
 		id := fmt.Sprintf("reopen%d", k)
@@ -1025,4 +1033,171 @@ func c11Reopen(c *h.Ctx, id string, r *rand.Rand) {
 	_ = f.Close()
 	c.Count("reopen_cases", 1)
 	c.Distinct(fmt.Sprintf("stream-face|reopen|during-callback=%v", duringCallback))
+}
+
+// c11LinkFragments: a stream face as the listeners build it (real Unix / TCP transport, real NDNLP
+// link service with fragmentation off and reassembly on, the transport's own receive loop). The peer
+// sends every packet as two to four link-protocol fragments and the byte stream arrives in reads of
+// scripted sizes (a frame per read, cuts inside headers, 97-byte reads, everything at once). What
+// reaches the forwarding threads must be exactly the packets sent, whatever the chunking.
+func c11LinkFragments(c *h.Ctx, id string, r *rand.Rand) {
+	kind := []string{"tcp", "unix"}[r.Intn(2)]
+	network, addr := "tcp4", "127.0.0.1:0"
+	if kind == "unix" {
+		dir := filepath.Join(c.WorkDir, fmt.Sprintf("sock-%d", c.Batch))
+		h.MustMkdir(dir)
+		addr = filepath.Join(dir, strings.ReplaceAll(id, "/", "_")+".lp.sock")
+		os.Remove(addr)
+		network = "unix"
+	}
+	ln, err := net.Listen(network, addr)
+	if err != nil {
+		c.Inconclusive("cannot listen: " + err.Error())
+		return
+	}
+	defer ln.Close()
+	ach := make(chan net.Conn, 1)
+	go func() {
+		cn, _ := ln.Accept()
+		ach <- cn
+	}()
+	peer, err := net.Dial(network, ln.Addr().String())
+	if err != nil {
+		c.Inconclusive("cannot dial: " + err.Error())
+		return
+	}
+	defer peer.Close()
+	srv := <-ach
+	if srv == nil {
+		c.Inconclusive("accept failed")
+		return
+	}
+	rts := fwenv.InstallRecThreads(2)
+	fwfw.Threads = make([]*fwfw.Thread, 2)
+	opts := face.MakeNDNLPLinkServiceOptions()
+	opts.IsFragmentationEnabled = false // reliable stream (what the stream listeners set)
+	done := make(chan struct{})
+	var closeTr func()
+	if kind == "unix" {
+		ut, err := face.MakeUnixStreamTransport(defn.MakeFDFaceURI(int(c.Batch)*1000+900+r.Intn(90)), defn.MakeUnixFaceURI(addr), srv)
+		if err != nil {
+			c.Inconclusive("cannot build unix transport: " + err.Error())
+			return
+		}
+		ls := face.MakeNDNLPLinkService(ut, opts)
+		ls.SetFaceID(911)
+		closeTr = ut.Close
+		go func() { face.VerifRunReceive(ut); close(done) }()
+	} else {
+		tt, err := face.AcceptUnicastTCPTransport(srv, nil, face.PersistencyPersistent)
+		if err != nil {
+			c.Inconclusive("cannot build tcp transport: " + err.Error())
+			return
+		}
+		ls := face.MakeNDNLPLinkService(tt, opts)
+		ls.SetFaceID(912)
+		closeTr = tt.Close
+		go func() { face.VerifRunReceive(tt); close(done) }()
+	}
+	nPk := 4 + r.Intn(8)
+	var packets [][]byte
+	var stream []byte
+	var frameEnds []int
+	for k := 0; k < nPk; k++ {
+		nm, _ := enc.NameFromStr(fmt.Sprintf("/lp/%d", k))
+		content := make([]byte, 30+r.Intn(2500))
+		r.Read(content)
+		_, wire, err := makeData(nm, nil, content)
+		if err != nil {
+			c.Inconclusive("cannot build Data")
+			return
+		}
+		packets = append(packets, wire)
+		n := 2 + r.Intn(3)
+		for i := 0; i < n; i++ {
+			a, z := len(wire)*i/n, len(wire)*(i+1)/n
+			var f []byte
+			f = append(f, tlvwalk.TLV(0x51, []byte{0, 0, 0, 0, 0, byte(k), 0, byte(i)})...)
+			f = append(f, tlvwalk.TLV(0x52, []byte{byte(i)})...)
+			f = append(f, tlvwalk.TLV(0x53, []byte{byte(n)})...)
+			f = append(f, tlvwalk.TLV(0x62, []byte{0, 0, 0, 0, byte(k), 1})...)
+			f = append(f, tlvwalk.TLV(0x50, wire[a:z])...)
+			stream = append(stream, tlvwalk.TLV(0x64, f)...)
+			frameEnds = append(frameEnds, len(stream))
+		}
+	}
+	plan := []string{"frame-per-read", "cut-inside-header", "97-byte-reads", "one-read", "random"}[r.Intn(5)]
+	var cuts []int
+	switch plan {
+	case "frame-per-read":
+		cuts = frameEnds
+	case "cut-inside-header":
+		for _, e := range frameEnds {
+			cuts = append(cuts, e+1+r.Intn(3))
+		}
+	case "97-byte-reads":
+		for p := 97; p < len(stream); p += 97 {
+			cuts = append(cuts, p)
+		}
+	case "random":
+		for p := 1 + r.Intn(400); p < len(stream); p += 1 + r.Intn(1500) {
+			cuts = append(cuts, p)
+		}
+	}
+	prev := 0
+	for _, ct := range append(cuts, len(stream)) {
+		if ct > len(stream) {
+			ct = len(stream)
+		}
+		if ct <= prev {
+			continue
+		}
+		if _, err := peer.Write(stream[prev:ct]); err != nil {
+			break
+		}
+		prev = ct
+		time.Sleep(time.Duration(150+r.Intn(300)) * time.Microsecond) // let the receive loop take this read
+	}
+	// wait until everything sent has been handled (or nothing moves any more)
+	count := func() int {
+		n := 0
+		for _, t := range rts {
+			n += t.Len()
+		}
+		return n
+	}
+	last, lastChange := -1, time.Now()
+	for count() < nPk && time.Since(lastChange) < 2*time.Second {
+		if n := count(); n != last {
+			last, lastChange = n, time.Now()
+		}
+		time.Sleep(300 * time.Microsecond)
+	}
+	_ = closeTr
+	peer.Close() // the receive loop ends on EOF, as when an application disconnects
+	select {
+	case <-done:
+	case <-time.After(20 * time.Second):
+	}
+	c.Eval(1)
+	var delivered [][]byte
+	for _, t := range rts {
+		_, d := t.Take()
+		for _, p := range d {
+			delivered = append(delivered, p.Raw)
+		}
+	}
+	det := map[string]any{"transport": kind, "packets": nPk, "reads": plan, "delivered": len(delivered)}
+	if len(delivered) != nPk {
+		c.Violation("C11:link-fragments:packet-count", id, fmt.Sprintf("%d packets were sent as link-protocol fragments over a %s stream face (%s), %d reached the forwarding threads", nPk, kind, plan, len(delivered)), det)
+		return
+	}
+	for i := range packets {
+		if !bytes.Equal(delivered[i], packets[i]) {
+			c.Violation("C11:link-fragments:packet-differs", id, fmt.Sprintf("packet %d reassembled from fragments received over a %s stream face (%s) differs from the packet sent", i, kind, plan), det)
+			return
+		}
+	}
+	c.Count("link_fragment_packets", int64(nPk))
+	c.Distinct(fmt.Sprintf("link-fragments|%s|%s", kind, plan))
 }
